@@ -77,6 +77,12 @@ def popn_orientation(repo):
             return True, n
         if isinstance(n, ast.Call) and last_attr(n.func) == "insert" and len(n.args) == 2 and "_stack.pop()" in U(n.args[1]):
             return False, n
+    # generator shape: tuple(self._stack.pop() for _ in range(n)) / [self._stack.pop() for _ in range(n)]
+    for n in body_walk(f):
+        if isinstance(n, (ast.GeneratorExp, ast.ListComp)) and "_stack.pop()" in U(n.elt) and len(n.generators) == 1:
+            par = getattr(n, "_parent", None)
+            rev = isinstance(par, ast.Call) and call_name(par) == "reversed"
+            return (not rev), n
     # slice shape: values = tuple(reversed(self._stack[-n:])); del self._stack[-n:]
     for n in body_walk(f):
         if isinstance(n, ast.Subscript) and U(n.value) == "self._stack" and isinstance(n.slice, ast.Slice) and isinstance(n.ctx, ast.Load):
@@ -192,6 +198,12 @@ class Interp:
                 else:
                     flat.append(p)
             return Text(flat)
+        if isinstance(e, (ast.ListComp, ast.GeneratorExp)) and len(e.generators) == 1 and "self.popn(" in U(e.elt):
+            # one popped group per iteration: the groups come out in pop order (last group first)
+            elem = self._eval(e.elt, env)
+            r = Seq(self.top_first, U(e.generators[0].iter))
+            r.elem = elem
+            return r
         if isinstance(e, (ast.ListComp, ast.GeneratorExp)) and len(e.generators) == 1:
             src = self._eval(e.generators[0].iter, env)
             elt = e.elt
@@ -287,7 +299,7 @@ def check_number_to_str(repo, rep):
                 return (1, 0, 0)
             if t == "int(exp)":
                 return (sign, 0, 0)
-            if t == "len(number)":
+            if t == f"len({digits_var})":
                 return (0, 1, 0)
             return None
         if isinstance(e, ast.UnaryOp) and isinstance(e.op, ast.USub):
@@ -302,6 +314,10 @@ def check_number_to_str(repo, rep):
         return None
 
     results = []
+    digits_var = "number"
+    for n in ast.walk(blk):
+        if isinstance(n, ast.Assign) and isinstance(n.targets[0], ast.Name) and isinstance(n.value, ast.Call) and U(n.value.func) == "re.sub":
+            digits_var = n.targets[0].id
 
     def walk(stmts, env, sign):
         for i, st in enumerate(stmts):
@@ -340,12 +356,12 @@ def check_number_to_str(repo, rep):
         zeros = [p for p in parts if isinstance(p, tuple) and p[0] == "zeros"]
         shape = [p if isinstance(p, str) else p[0] if p[0] == "zeros" else p[1] for p in parts]
         if sign > 0:
-            ok_shape = shape == ["number", "zeros"]
+            ok_shape = shape == [digits_var, "zeros"]
             want = (1, -1, 1)
             what = "large numbers: digits then X - L + 1 zeros"
             key = "C08.R5@number_to_str:positive-exponent"
         else:
-            ok_shape = shape == ["0.", "zeros", "number"]
+            ok_shape = shape == ["0.", "zeros", digits_var]
             want = (1, 0, -1)
             what = "small numbers: '0.' then X - 1 zeros then digits"
             key = "C08.R5@number_to_str:negative-exponent"
@@ -402,10 +418,24 @@ def run(repo, rep, tier):
     # TableFormulas.formula: three cases and call order
     tf = repo.func("formula.py", "TableFormulas.formula")
     src = U(tf)
-    calls = [n for n in body_walk(tf) if isinstance(n, ast.Call) and isinstance(n.func, ast.Name) and len(n.args) == 3]
-    ok_call = any([U(a) for a in c.args] == ["row", "col", "node"] for c in calls)
+    defs_tf = {n.targets[0].id: n.value for n in body_walk(tf) if isinstance(n, ast.Assign) and isinstance(n.targets[0], ast.Name)}
+
+    def _res(e, depth=0):
+        while isinstance(e, ast.Name) and e.id in defs_tf and depth < 4:
+            e = defs_tf[e.id]
+            depth += 1
+        return e
+
+    calls = [n for n in body_walk(tf) if isinstance(n, ast.Call) and len(n.args) == 3 and [U(a) for a in n.args] == ["row", "col", "node"]]
+    ok_call = False
+    ok_get = False
+    for c in calls:
+        fn = _res(c.func)
+        if isinstance(fn, ast.Call) and call_name(fn) == "getattr" and len(fn.args) == 2 and U(fn.args[0]) == "formula":
+            ok_call = True
+            key = _res(fn.args[1])
+            ok_get = U(key).replace(" ", "") == "NODE_FUNCTION_MAP[node_type]"
     rep.ob("C08.R1", tf, "handler invoked as func(row, col, node)", ok_call, "", key="C08.R1@formula:callorder")
-    ok_get = "getattr(formula, NODE_FUNCTION_MAP[node_type])" in src.replace("\n", "")
     rep.ob("C08.R1", tf, "handler looked up by the node's own type", ok_get, "", key="C08.R1@formula:getattr")
     loops = [n for n in body_walk(tf) if isinstance(n, ast.For)]
     ok_loop = any("all_formulas[formula_key]" in U(l.iter) and not isinstance(l.iter, ast.Call) for l in loops)
